@@ -70,9 +70,15 @@ partial def wVal : Val → List String
   | .str s => ["s", H s] | .uri s => ["u", H s] | .sym s => ["y", H s]
   | .ref id dis => ["r", H id, HO dis]
   | .xstr ty v => ["x", H ty, H v]
-  | .date d => ["d", toString d.y, toString d.m, toString d.d, H d.txt]
-  | .time t => ["t", toString t.h, toString t.mi, toString t.s, toString t.ns, H t.txt]
+  | .date d =>
+    -- Hayson: the text still has to go through chrono (`dl`)
+    if d.y = -1 then ["dl", H d.txt] else ["d", toString d.y, toString d.m, toString d.d, H d.txt]
+  | .time t =>
+    if t.h = 99 then ["tl", H t.txt]
+    else ["t", toString t.h, toString t.mi, toString t.s, toString t.ns, H t.txt]
   | .dateTime t =>
+    -- Hayson: `val` (RFC 3339) and optional `tz`, evaluated by chrono / chrono-tz in `hsverif canon`
+    if t.tzid = ['?'] then ["Tj", H t.txt, if t.off = 1 then H t.zone else "-"] else
     -- a decoded timestamp carries the token text (tzid empty): chrono / chrono-tz evaluate it in `hsverif canon`
     if t.tzid.isEmpty then ["Tl", H t.txt]
     else ["T", toString t.secs, toString t.ns, toString t.off, H t.zone, H t.tzid, H t.txt]
